@@ -460,8 +460,9 @@ class Report:
             "wall_s": round(time.time() - self.t0, 2),
             "violations": len(self.violations),
         }
-        os.makedirs(os.path.join(VERIF, "evidence"), exist_ok=True)
-        with open(os.path.join(VERIF, "evidence", self.prop_id + ".json"), "w") as f:
+        evdir = os.environ.get("PV_EVIDENCE_DIR") or os.path.join(VERIF, "evidence")
+        os.makedirs(evdir, exist_ok=True)
+        with open(os.path.join(evdir, self.prop_id + ".json"), "w") as f:
             json.dump(ev, f, indent=1, default=str)
         for text in self.known:
             print("KNOWN-FINDING: property=%s %s" % (self.prop_id, text))
